@@ -246,10 +246,17 @@ def run(ctx):
     try:
         env = R.Env(root)
         full = ctx.thorough
-        types = R.grammar(2, binary_other=None if full else R.atoms())
+        types = R.grammar(2, binary_other=R.atoms())
+        n_quickgrammar = len(types)
+        n_rest = 0
+        if full:
+            have = {R.tname(t) for t in types}
+            rest = [t for t in R.grammar(2) if R.tname(t) not in have]
+            n_rest = len(rest)
+            types = types + random.Random(ctx.seed).sample(rest, min(30000, len(rest)))
         pool = R.general_pool(env)
-        n_pool_deep = ctx.pick(4, 8)
-        n_near_deep = ctx.pick(6, 16)
+        n_pool_deep = ctx.pick(4, 6)
+        n_near_deep = ctx.pick(6, 12)
         n_pool_shallow = ctx.pick(60, None)
         _G.update(types=types, env=env, pool=pool, seed=ctx.seed, n_pool_deep=n_pool_deep, n_near_deep=n_near_deep, n_pool_shallow=n_pool_shallow)
         nproc = min(ctx.pick(8, 16), os.cpu_count() or 1)
@@ -257,7 +264,8 @@ def run(ctx):
             f"{len(types)} declared types: every well-formed type of nesting depth <= 2 over atoms "
             "{int,float,str,bool,bytes,Path,fileformats.generic.File} with Optional/Union (both member orders)/list/"
             "tuple[X,Y]/tuple[X,...]/dict/set/MultiInputObj, set elements and dict keys restricted to hashable types"
-            + ("" if full else "; quick tier: at depth 2 the binary constructors (Union, tuple[X,Y], dict) pair one component of depth <= 1 with one ATOM (both orders)")
+            + f"; all {n_quickgrammar} types in which the depth-2 binary constructors (Union, tuple[X,Y], dict) pair one component of depth <= 1 with one ATOM (both orders)"
+            + (f", plus {len(types) - n_quickgrammar} of the remaining {n_rest} depth-2 types (both components of depth 1) sampled with seed {ctx.seed}" if full else "")
             + f"; values per type: values_of(T) (container lengths 0..3) + values of T's one-edit neighbour types (other atom / other container kind / other arity) "
             f"+ general pool of {len(pool)} values; depth <= 1 types: all values_of(T), all neighbour values, {'the whole pool' if n_pool_shallow is None else str(n_pool_shallow) + ' pool values'}; "
             f"depth-2 types: all values_of(T) + {n_near_deep} neighbour values + {n_pool_deep} pool values; samples are per type, seed {ctx.seed}"
